@@ -1,7 +1,7 @@
 """SYS - end-to-end binding of the system specification Kerberos5.tla (not a listed property; run by C01 and by bin/selftest).
 Real client + simulated KDC + real service + attacker moves; the recorded event sequence must be a behaviour of Kerberos5
 (trace actions reuse Kerberos5!Valid / AuthId / Identity) with Agreement and AtMostOnce checked in every state."""
-import os, shutil
+import os, json, shutil
 import vlib
 
 
@@ -95,6 +95,123 @@ def run_tgs(run, quick=True):
         if not info["binding_selftest"]["rejected"]:
             raise vlib.Inconclusive("binding self-test: TraceK5TGS accepts a delivery for another service")
         return info, lines, None
+    finally:
+        shutil.rmtree(wd, ignore_errors=True)
+
+
+def _as_round(lines, pos):
+    """the events of the round (one client) that holds event number pos (1-based)"""
+    a = max(i for i in range(pos) if lines[i]["ev"] == "reset")
+    b = next((i for i in range(pos, len(lines)) if lines[i]["ev"] == "reset"), len(lines))
+    return a, b
+
+
+def run_as(run, quick=True):
+    """ASExchange.tla (Login: pre-authentication negotiation, client referrals, errors): model checked with its weakenings and against
+    a conformant KDC, then bound end to end: the real Client.Login against scripted KDCs of four realms (vh sysas).  Returns
+    (info, [(problem text, facts, events of the round)])."""
+    import re
+    wd = vlib.spec_scratch(["system"])
+    try:
+        info = {"models": {}}
+        for mod, cfg, expect in (("MCAS", "MCAS.cfg", None), ("MCAS", "MCAS_free.cfg", None), ("MCAS", "MCAS_unbounded.cfg", "SendsBounded"),
+                                 ("MCASConformant", "MCASConformant.cfg", None), ("MCASConformant", "MCASConformant_asfound.cfg", "LoginSucceeds")):
+            res = vlib.tlc(wd, mod, cfg=cfg, timeout=1200)
+            violated = None
+            if res.violation:
+                m = re.search(r"Invariant (\w+) is violated", res.out)
+                violated = m.group(1) if m else "?"
+            info["models"][cfg] = {"distinct": res.distinct, "violated": violated}
+            if violated != expect or (expect is None and (res.rc != 0 or not res.finished)):
+                raise vlib.Inconclusive("ASExchange %s: expected violated invariant %s, got %s\n%s" % (cfg, expect, violated, res.out[-2000:]))
+            if expect is None:
+                run.add_model(res)
+        trace = os.path.join(wd, "trace.ndjson")
+        vlib.run_harness(["sysas", "-seed", str(run.seed), "-rounds", "36" if quick else "360", "-out", trace], timeout=2400)
+        lines = vlib.read_ndjson(trace)
+        info["events"] = len(lines)
+        info["clients"] = sum(1 for x in lines if x["ev"] == "reset")
+        info["logins"] = sum(1 for x in lines if x["ev"] == "login")
+        info["logins_succeeded"] = sum(1 for x in lines if x["ev"] == "result" and x["ok"])
+        info["requests"] = sum(1 for x in lines if x["ev"] == "req")
+        info["answers"] = {}
+        for x in lines:
+            if x["ev"] == "req":
+                a = x["answer"]
+                k = a["t"] + ("-%d" % a["code"] if a["t"] == "preauth" else "") + ("-bad" if a["t"] == "reply" and not a["good"] else "")
+                info["answers"][k] = info["answers"].get(k, 0) + 1
+        info["preauthenticated_requests"] = sum(1 for x in lines if x["ev"] == "req" and x["pa"])
+        info["longest_login_requests"] = 0
+        n = 0
+        for x in lines:
+            n = n + 1 if x["ev"] == "req" else 0 if x["ev"] == "login" else n
+            info["longest_login_requests"] = max(info["longest_login_requests"], n)
+
+        def validate(cfg, ls):
+            """positions (in ls) of the rounds the specification rejects: a rejected round is cut out and the rest validated again"""
+            ls = list(ls)
+            problems = []
+            while len(problems) < 12:
+                vlib.write_ndjson(trace, ls)
+                res = vlib.tlc(wd, "TraceAS", cfg=cfg, workers=1, timeout=1200)
+                m = re.search(r"Invariant (\w+) is violated", res.out) if res.violation else None
+                rej = res.tags("REJECTED")
+                if not m and (res.rc != 0 or not res.finished):
+                    raise vlib.Inconclusive("TraceAS (%s) failed:\n%s" % (cfg, res.out[-3000:]))
+                if not m and not rej:
+                    break
+                if m:
+                    # the invariant fails in the state after some event: find it by bisection over rounds is not needed - TLC prints l
+                    lm = re.findall(r"/\\ l = (\d+)", res.out)
+                    pos = int(lm[-1]) - 1 if lm else 1
+                    why = "invariant %s of ASExchange fails after event" % m.group(1)
+                else:
+                    pos = int(rej[0])
+                    why = "not a step of ASExchange: event"
+                pos = max(1, min(pos, len(ls)))
+                a, b = _as_round(ls, pos)
+                problems.append((why, pos - a, ls[a:b]))
+                ls = ls[:a] + ls[b:]
+            return problems
+        problems = validate("TraceAS.cfg", lines)
+        out = []
+        for why, k, rnd in problems:
+            x = rnd[k - 1] if 0 < k <= len(rnd) else rnd[-1]
+            prev = next((y for y in reversed(rnd[:max(k - 1, 0)]) if y["ev"] == "req"), None)
+            facts = {"system_trace": "as", "event": x["ev"], "after_answer": (prev["answer"]["t"] + (str(prev["answer"].get("code", "")) if prev["answer"]["t"] == "preauth" else "")) if prev else "",
+                     "password": rnd[0]["password"], "customSalt": rnd[0]["customSalt"]}
+            out.append(("%s %d of the round: %s" % (why, k, json.dumps(x)[:600]), facts, rnd))
+        info["rounds_rejected"] = len(out)
+        # the code as it is, in every detail the specification has (first requests, error classes): drift of the model, not a verdict
+        drift = validate("TraceAS_faithful.cfg", lines) if not out else []
+        info["model_drift_rounds"] = len(drift)
+        if drift:
+            vlib.spec_validation_problem(run, "ASExchange (Faithful) no longer describes what the code does in %d rounds; first: %s %d of %s"
+                                         % (len(drift), drift[0][0], drift[0][1], json.dumps(drift[0][2])[:900]))
+        if not out:
+            if info["logins_succeeded"] == 0 or info["answers"].get("wrongrealm", 0) == 0 or info["answers"].get("preauth-24", 0) == 0 or info["longest_login_requests"] < 7:
+                raise vlib.Inconclusive("system trace vacuous: %s" % info)
+            # ---- binding self-test: corrupted events must be rejected
+            st = {}
+            k = next(i for i, x in enumerate(lines) if x["ev"] == "result" and not x["ok"])
+            bad = [dict(x) for x in lines]
+            bad[k]["ok"] = True
+            st["failed login reported as success"] = bool(validate("TraceAS.cfg", bad))
+            k = next(i for i, x in enumerate(lines) if x["ev"] == "req" and x["pa"] and lines[i - 1]["ev"] == "req" and lines[i - 1]["answer"]["t"] == "preauth")
+            bad = [dict(x) for x in lines]
+            bad[k]["et"] = 17 if bad[k]["et"] != 17 else 18
+            st["solicited timestamp under another etype"] = bool(validate("TraceAS.cfg", bad))
+            bad = [dict(x) for x in lines]
+            bad[k]["keyHint"] = bad[k]["keyStored"] = False
+            st["solicited timestamp under another key"] = bool(validate("TraceAS.cfg", bad))
+            k = next(i for i, x in enumerate(lines) if x["ev"] == "req" and x["answer"]["t"] == "wrongrealm" and lines[i + 1]["ev"] == "req")
+            bad = [dict(x) for x in lines]
+            bad[k + 1]["at"] = "R0.AS.TEST" if bad[k + 1]["at"] != "R0.AS.TEST" else "R1.AS.TEST"
+            st["referral followed to another realm"] = bool(validate("TraceAS.cfg", bad))
+            info["binding_selftest"] = st
+            if not all(st.values()):
+                raise vlib.Inconclusive("binding self-test: TraceAS accepts a corrupted trace: %s" % st)
+        return info, out
     finally:
         shutil.rmtree(wd, ignore_errors=True)
 
